@@ -20,7 +20,7 @@ P.update({
           'TLC exhausts Cache.tla (store atomic under the lock; drain = unlocked emptiness test, locked choose, locked pop; six strategies; dict insertion order) and proves conservation, last-write-wins, no duplicate timestamp in a batch and exact size in every state; simulated behaviours are replayed on the real _MetricCache with the projection compared after each action; line-level schedule exploration (pre-emption bounded exhaustive, then random) of real store/drain/cache-query workloads is recorded and every execution must have a linearization in CacheLin.tla explaining every batch, query result and lock-free size observation.',
           'source-line granularity (dict/deque operations are atomic under the GIL); cooperative replacement of the cache lock installed on the instance; cache queries issued from the storing thread as in carbon',
           TECH),
-  'C10': (True, 'Cache.tla, CacheLin.tla, Boot.tla',
+  'C10': (True, 'Cache.tla, CacheLin.tla, Boot.tla, Instr.tla',
           'As C02 with MAX_CACHE_SIZE 1..6 and flow control on/off: TLC proves Bound, RefusalSignalled and the action property RefusalNoEffect on Cache.tla; recorded executions are judged by CacheLin.tla where a refusal must coincide with the overflow signal and leave contents and metric count unchanged, and every lock-free observation of the size must respect floor(hard limit).',
           'hard limit derived like conf.py (MAX or 1.05*MAX); overflow signal observed by a handler on events.cacheOverflow; line granularity',
           TECH),
@@ -31,7 +31,7 @@ P.update({
 })
 
 P.update({
-  'C03': (True, 'Writer.tla, WriterLin.tla, Writer_Trace.tla, TagQueue.tla',
+  'C03': (True, 'Writer.tla, WriterLin.tla, Writer_Trace.tla, TagQueue.tla, Instr.tla',
           'TLC exhausts Writer.tla (program-counter machine of writeCachedDataPoints/writeForever with a storing thread, create limiting, lag, and up to 2 failing exists/create/write calls) and proves no double write, no rewrite after an error, write only for existing files, nothing silently discarded and the counters; the real writeForever() runs under the line-level deterministic scheduler against real stores, an in-memory database plugin executing a fault script (every single-fault placement, then random multi-fault scripts) with the real counters and the twisted error log, and WriterLin.tla judges every recorded trace clause by clause; executions at lock/backend-call granularity are in addition validated against Writer.tla itself (Writer_Trace.tla: logged events matched to actions, silent writer steps inserted by TLC, corrupted traces rejected).',
           'in-memory TimeSeriesDatabase plugin stands for Whisper/Ceres (not installed); log.err() counts as reported; linearization-point events logged from the cooperative cache lock; line granularity',
           TECH),
@@ -42,7 +42,7 @@ P.update({
 })
 
 P.update({
-  'C07': (True, 'Relay.tla, Relay_Trace.tla, Boot.tla',
+  'C07': (True, 'Relay.tla, Relay_Trace.tla, Boot.tla, Instr.tla',
           'TLC exhausts Relay.tla - one action per reactor callback of carbon.client (arrival, self-metric, connection made/lost/failed, transport pause/resume, send timer, retry timer, stop) with the synchronous chains inside a callback - and proves FifoOnce, NormalOrder, DropsCounted, Bounded, BatchSize, StopAfterFlush and NoLoss for 1-2 destinations, flow control and dynamic router on/off; TLC-simulated event sequences and seeded random histories are executed on the real CarbonClientManager/factories/protocols (fake connector, per-factory clocks, StringTransports, real router, real pipeline wiring); every event logs the full projection including the independently decoded bytes of every connection and Relay_Trace.tla applies the callback to the previously observed state and names what differs.',
           'bytes handed to transport.write() are the observation; no datapoints injected after the orderly stop began; pickle and line client protocols (protobuf not importable)',
           TECH),
